@@ -20,7 +20,9 @@ package electreIII
 //@   ensures [restricted] forall k int :: 0 <= k && k < len(*leftCriteria) ==>
 //@             (*result.(electreIIIParams).Criteria)[(*leftCriteria)[k].Id] == (*params.(electreIIIParams).Criteria)[(*leftCriteria)[k].Id]
 //@   ensures [distillation_kept] result.(electreIIIParams).DistillationFun == params.(electreIIIParams).DistillationFun
+//@   ensures [no_thresholds_left_for_an_omitted_criterion] forall q string :: q in *result.(electreIIIParams).Criteria ==> exists k int :: 0 <= k && k < len(*leftCriteria) && (*leftCriteria)[k].Id == q
 //@   loop 1 invariant [ctx] fresh(resCriteria) && resCriteria != nil
+//@   loop 1 invariant [only_kept] forall q string :: q in resCriteria ==> exists k int :: 0 <= k && k < iter && (*leftCriteria)[k].Id == q
 //@   loop 1 invariant [kept] forall k int :: 0 <= k && k < iter ==> (*leftCriteria)[k].Id in resCriteria && resCriteria[(*leftCriteria)[k].Id] == (*params.(electreIIIParams).Criteria)[(*leftCriteria)[k].Id]
 
 //@ func (*ElectreIIIBiasLIstener).OnCriterionAdded
@@ -64,7 +66,7 @@ package electreIII
 //@ spec thr(f utils.LinearFunctionParameters, x real) real = present(f) ? f.A * x + f.B : 0.0
 
 //@ func calculateElectreResult
-//@   property C05 C06
+//@   property C05 C06 C01 C20
 //@   ensures [not_worse_is_concordant] c1Val >= c2Val ==> result.C == 1.0 && result.D == 0.0
 //@   ensures [indices] fresh(result)
 //@             && result.C == conc(c2Val - c1Val, present(ths.Q), thr(ths.Q, c1Val * model.mult(*c)), present(ths.P), thr(ths.P, c1Val * model.mult(*c)))
@@ -82,14 +84,14 @@ package electreIII
 //@ spec sumK(rs []*electreIIISingleResult, n int) real = n <= 0 ? 0.0 : sumK(rs, n - 1) + rs[n - 1].criterion.K
 //@ spec sumKC(rs []*electreIIISingleResult, n int) real = n <= 0 ? 0.0 : sumKC(rs, n - 1) + rs[n - 1].criterion.K * rs[n - 1].result.C
 //@ func calculateTotalC
-//@   property C05 C06
+//@   property C05 C06 C01 C20
 //@   ensures [weighted_mean] result == sumKC(*results, len(*results)) / sumK(*results, len(*results))
 //@   loop 1 invariant [partial] weightSum == sumK(*results, iter) && totalC == sumKC(*results, iter)
 
 //@ spec cred(C real, rs []*electreIIISingleResult, n int) real =
 //@      n <= 0 ? C : cred(C, rs, n - 1) * (rs[n - 1].result.D > C ? (1.0 - rs[n - 1].result.D) / (1.0 - C) : 1.0)
 //@ func calculateCredibility
-//@   property C05 C06
+//@   property C05 C06 C01 C20
 //@   ensures [veto_product] result == cred(C, *results, len(*results))
 //@   loop 1 invariant [partial] credibility == cred(C, *results, iter)
 
@@ -99,38 +101,38 @@ package electreIII
 //@   ensures  0.0 <= cr1 * (d1 > c1 ? (1.0 - d1) / (1.0 - c1) : 1.0)
 
 //@ func evaluateAlternativesPair
-//@   property C05 C06
+//@   property C05 C06 C01 C20
 //@   ensures [unit_diagonal] i == j ==> result == 1.0
 //@   returnhint [off_diagonal_is_the_credibility] i != j ==> result == eleRes.D
 //@   assumes [definition_of_credV] i != j ==> result == credV(*a1, *a2, criteria, electreCriteria)
 
 // the pair's result: C the global concordance, D the credibility derived from it by the veto product
 //@ func electreIIICredibility
-//@   property C05 C06
+//@   property C05 C06 C01 C20
 //@   ensures [fresh] fresh(result)
 //@   returnhint [concordance_then_credibility] result.C == c && result.D == d
 
 // ---- distillation helpers and the final ranking (C01, C05, C06)
 
 //@ func Max
-//@   property C05 C06 C20
+//@   property C05 C06 C20 C01
 //@   panics_iff [empty] len(*values) == 0
 //@   ensures [maximum] (forall k int :: 0 <= k && k < len(*values) ==> (*values)[k] <= result) && (exists k int :: 0 <= k && k < len(*values) && (*values)[k] == result)
 //@   loop 1 invariant [partial] (forall k int :: 0 <= k && k < iter ==> (*values)[k] <= best) && (exists k int :: 0 <= k && k < len(*values) && (*values)[k] == best) && len(*values) > 0
 
 //@ func minusValuesFrom
-//@   property C05 C06 C20
+//@   property C05 C06 C20 C01
 //@   assigns *values
 //@   ensures [mirrored] *values == old(*values) && forall k int :: 0 <= k && k < len(*values) ==> (*values)[k] == value - old((*values)[k])
 //@   loop 1 invariant [done] *values == old(*values) && forall k int :: 0 <= k && k < len(*values) ==> (*values)[k] == (k < iter ? value - old((*values)[k]) : old((*values)[k]))
 
 //@ func samePositions
-//@   property C05 C06 C20
+//@   property C05 C06 C20 C01
 //@   ensures [constant] fresh(result) && fresh(*result) && len(*result) == size && forall k int :: 0 <= k && k < size ==> (*result)[k] == value
 //@   loop 1 invariant [filled] fresh(pos) && len(pos) == size && forall k int :: 0 <= k && k < iter ==> pos[k] == value
 
 //@ func calcQuality
-//@   property C05 C06 C20
+//@   property C05 C06 C20 C01
 //@   ensures [strength_minus_weakness] fresh(result) && fresh(*result) && len(*result) == len(*strength) && forall k int :: 0 <= k && k < len(*strength) ==> (*result)[k] == (*strength)[k] - (*weakness)[k]
 //@   loop 1 invariant [filled] fresh(quality) && len(quality) == len(*strength) && forall k int :: 0 <= k && k < iter ==> quality[k] == (*strength)[k] - (*weakness)[k]
 
@@ -138,7 +140,7 @@ package electreIII
 //@      typeis(e.Evaluation, ElectreIIIEvaluation) && e.Evaluation.(ElectreIIIEvaluation).AscendingIndex == asc && e.Evaluation.(ElectreIIIEvaluation).DescendingIndex == desc
 
 //@ func EvaluateRanking
-//@   property C01 C05 C06
+//@   property C01 C05 C06 C20
 //@   ensures [one_entry_each] result != nil && fresh(result) && len(*result) == len(*ascending)
 //@   ensures [entries] forall a int :: 0 <= a && a < len(*ascending) ==> (*result)[a].Alternative == (*alternatives)[a] && electreEval((*result)[a].AlternativeResult, (*ascending)[a], (*descending)[a])
 //@   ensures [links_complete] forall a int, b int :: 0 <= a && a < len(*ascending) && 0 <= b && b < len(*ascending) && a != b
@@ -172,12 +174,12 @@ package electreIII
 // ---- parameter validation (C05, C20)
 
 //@ func requireBValueAtLeast
-//@   property C05 C20
+//@   property C05 C20 C07
 //@   panics_iff [constant_threshold_not_increasing] f.A == 0.0 && f.B != 0.0 && f.B <= current
 //@   ensures [running_bound] result == (f.B > 0.0 ? f.B : current)
 
 //@ func validateParameters
-//@   property C05 C20
+//@   property C05 C20 C07
 //@   panics_iff [k_not_positive_or_thresholds_not_increasing] crit.K <= 0.0
 //@             || (crit.Q.A == 0.0 && crit.Q.B != 0.0 && crit.Q.B <= 0.0)
 //@             || (crit.P.A == 0.0 && crit.P.B != 0.0 && crit.P.B <= (crit.Q.B > 0.0 ? crit.Q.B : 0.0))
@@ -192,7 +194,7 @@ package electreIII
 //@   ensures  f.A * x + f.B >= 0.0
 
 //@ func getDistillationFunc
-//@   property C20 C05
+//@   property C20 C05 C07
 //@   ensures [nonneg_distillation] result != nil && nonnegOnUnit(*result)
 //@   ensures [as_requested_zero_for_an_omitted_coefficient] "electreDistillation" in dm.MethodParameters ==>
 //@             result.A == (decoded_has(dm.MethodParameters["electreDistillation"], "A") ? decoded_real(dm.MethodParameters["electreDistillation"], "A") : 0.0)
@@ -205,13 +207,13 @@ package electreIII
 //@ spec descRank(m *AlternativesMatrix, f *utils.LinearFunctionParameters) *[]int
 // that a distillation is a function of the matrix and the distillation function is assumed ("assumes"); its shape is proved
 //@ func RankAscending
-//@   property C05 C06 C20
+//@   property C05 C06 C20 C01
 //@   requires [nonneg_distillation] distillationFun != nil && nonnegOnUnit(*distillationFun)
 //@   requires [square] matrix.Values != nil
 //@   assumes [a_function_of_matrix_and_distillation_function] result == ascRank(matrix, distillationFun)
 //@   ensures [one_class_number_per_alternative] result != nil && len(*result) == matrix.Values.Size
 //@ func RankDescending
-//@   property C05 C06 C20
+//@   property C05 C06 C20 C01
 //@   requires [nonneg_distillation] distillationFun != nil && nonnegOnUnit(*distillationFun)
 //@   requires [square] matrix.Values != nil
 //@   assumes [a_function_of_matrix_and_distillation_function] result == descRank(matrix, distillationFun)
@@ -245,27 +247,27 @@ package electreIII
 //@ spec lin(f utils.LinearFunctionParameters, x real) real = (f.A == 0.0 && f.B == 0.0) ? 0.0 : f.A * x + f.B
 
 //@ func (*Matrix).At
-//@   property C05 C06
+//@   property C05 C06 C01 C20
 //@   panics_iff [out_of_range] row * m.Size + col < 0 || row * m.Size + col >= len(m.Data)
 //@   ensures [row_major] result == m.Data[row * m.Size + col]
 
 // the cut level below the maximal credibility: the largest value strictly below maxCred - s(maxCred)
 //@ func getDistillateMatrix$1
-//@   property C05 C06 C20
+//@   property C05 C06 C20 C01
 //@   nopanic
 //@   ensures [next_level_below_the_threshold] result <==> (new < minCredThreshold && new > old)
 // a credibility qualifies iff it is above the cut level and exceeds the reverse credibility by more than s(its own value)
 //@ func getDistillateMatrix$2
-//@   property C05 C06 C20
+//@   property C05 C06 C20 C01
 //@   requires 0 <= col * matrix.Size + row && col * matrix.Size + row < len(matrix.Data)
 //@   ensures [qualifies] result <==> (v > minCred && v > matrix.Data[col * matrix.Size + row] + lin(*distillationFun, v))
 
 //@ func calcCoords
-//@   property C05 C06
+//@   property C05 C06 C01 C20
 //@   ensures [row_major] size > 0 && index >= 0 ==> result0 * size + result1 == index && 0 <= result1 && result1 < size
 
 //@ func (*Matrix).Filter
-//@   property C05 C06
+//@   property C05 C06 C01 C20
 //@   fnparam filter pure
 //@   ensures [kept_or_zero] fresh(result) && result.Size == m.Size && len(result.Data) == m.Size * m.Size && fresh(result.Data)
 //@             && forall i int :: 0 <= i && i < len(m.Data) && i < len(result.Data) ==> (result.Data[i] == m.Data[i] || result.Data[i] == 0.0)
@@ -276,7 +278,7 @@ package electreIII
 // FindBest scans with "replace when isBetter(best, v)": if isBetter behaves like a strict weak order (irreflexive, and
 // whatever is not better than x is not better than something better than x), no entry is better than the result
 //@ func (*Matrix).FindBest
-//@   property C05 C06
+//@   property C05 C06 C01 C20
 //@   fnparam isBetter pure
 //@   panics_iff [empty] m.Size == 0 || len(m.Data) == 0
 //@   ensures [an_entry] exists k int :: 0 <= k && k < len(m.Data) && result == m.Data[k]
@@ -289,7 +291,7 @@ package electreIII
 //@ pred isMax(v real, m Matrix) = (forall k int :: 0 <= k && k < len(m.Data) ==> m.Data[k] <= v) && exists k int :: 0 <= k && k < len(m.Data) && m.Data[k] == v
 //@ pred isMin(v real, m Matrix) = (forall k int :: 0 <= k && k < len(m.Data) ==> m.Data[k] >= v) && exists k int :: 0 <= k && k < len(m.Data) && m.Data[k] == v
 //@ func (*Matrix).Max$1
-//@   property C05 C06
+//@   property C05 C06 C01 C20
 //@   nopanic
 //@   ensures [greater] result <==> new > old
 //@ func (*Matrix).Min$1
@@ -297,68 +299,74 @@ package electreIII
 //@   nopanic
 //@   ensures [lower] result <==> new < old
 //@ func (*Matrix).Max
-//@   property C05 C06
+//@   property C05 C06 C01 C20
 //@   ensures [largest_entry] isMax(result, *m)
 //@ func (*Matrix).Min
 //@   property C05 C06
 //@   ensures [smallest_entry] isMin(result, *m)
 
 // every (outer) distillation starts from the largest credibility of the matrix it works on; an inner one from the cut level
+// distilled(...): the positions a distillation yields (that it is a function of its arguments is assumed, "assumes"); it lets
+// the recursion state which comparison, distillation function, cut level and sub-matrix the next (inner or further) one gets
+//@ spec distilled(maxCred real, position int, m *Matrix, f *utils.LinearFunctionParameters, cmp func(int, int) bool, inner bool) *[]int
 //@ func distillate
-//@   property C05 C06
+//@   property C05 C06 C01 C20
 //@   requires [starts_at_the_largest_credibility] !isInner ==> isMax(maxCred, *matrix)
 //@   ensures [positions] result != nil && fresh(result) && fresh(*result)
 //@   ensures [one_position_per_row] len(*result) == matrix.Size
+//@   assumes [a_function_of_its_arguments] result == distilled(maxCred, position, matrix, distillationFun, evaluateFunction, isInner)
+//@   returnhint [the_rest_is_distilled_from_its_own_largest_credibility_one_class_further] maxCred != 0.0 ==> (len(*indicesLeftToUpdate) == matrix.Size || isInner
+//@             || (exists mx real :: isMax(mx, *nextIterationMatrix) && furtherPositions == distilled(mx, position + 1, nextIterationMatrix, distillationFun, evaluateFunction, false)))
 //@ func rank
-//@   property C05 C06
+//@   property C05 C06 C01 C20
 //@   requires [square] matrix.Values != nil
 //@   ensures [positions] result != nil && fresh(result) && fresh(*result)
 //@   ensures [one_position_per_alternative] len(*result) == matrix.Values.Size
 //@ func removeDiagonal
-//@   property C05 C06
+//@   property C05 C06 C01 C20
 //@   requires [square] matrix.Values != nil
 //@   ensures [same_size] result != nil && result.Size == matrix.Values.Size
 //@ func removeDiagonal$1
-//@   property C05 C06
+//@   property C05 C06 C01 C20
 //@   nopanic
 //@   ensures [off_diagonal] result <==> row != col
 // the sub-matrices the recursion works on: their size is what the position lists are sized by
 //@ func (*Matrix).Slice
-//@   property C05 C06
+//@   property C05 C06 C01 C20
 //@   assigns *indices
 //@   ensures [one_row_per_index] result != nil && result.Size == len(*indices) && *indices == old(*indices) && (result == m || fresh(result))
 //@   loop 1 invariant [ctx] *indices == old(*indices) && resultSize == len(*indices)
 //@   loop 2 invariant [ctx] *indices == old(*indices) && resultSize == len(*indices) && fresh(resultData)
 //@ func (*Matrix).Without
-//@   property C05 C06
+//@   property C05 C06 C01 C20
 //@   ensures [rows_removed] result != nil && (len(*indices) == m.Size ? result == m : (fresh(result) && result.Size == m.Size - len(*indices)))
 //@   ensures [input_untouched] unchanged(*indices)
 //@   loop 1 invariant [ctx] fresh(sorted) && fresh(data) && size == m.Size && toRemove == len(*indices) && unchanged(*indices)
 //@   loop 2 invariant [ctx] fresh(sorted) && fresh(resultData) && size == m.Size - len(*indices) && unchanged(*indices)
 //@ func updateValues
-//@   property C05 C06
+//@   property C05 C06 C01 C20
 //@   assigns *original
 //@   ensures [in_place] *original == old(*original)
 //@   loop 1 invariant [in_place] *original == old(*original)
 //@ func updatePositions
-//@   property C05 C06
+//@   property C05 C06 C01 C20
 //@   assigns *positions, *bestIndices
 //@   ensures [in_place] *positions == old(*positions) && *bestIndices == old(*bestIndices)
 //@   loop 1 invariant [ctx] fresh(indices)
 
 // ---- distillation bookkeeping (C05, C06)
 //@ func greater
-//@   property C05 C06
+//@   property C05 C06 C01 C20
 //@   nopanic
 //@   ensures [ascending_pick] result <==> old < new
 //@ func lower
-//@   property C05 C06
+//@   property C05 C06 C01 C20
 //@   nopanic
 //@   ensures [descending_pick] result <==> old > new
 
 // findBestMatch: the best quality (none is better w.r.t. a strict-weak-order comparator) and exactly the positions holding it
 //@ func findBestMatch
-//@   property C05 C06
+//@   property C05 C06 C01 C20
 //@   fnparam isBetter pure
 //@   ensures [a_value_of_the_list] exists k int :: 0 <= k && k < len(*values) && result0 == (*values)[k]
 //@   ensures [indices_hold_the_best] result1 != nil && fresh(result1) && fresh(*result1) && forall m int :: 0 <= m && m < len(*result1) ==> 0 <= (*result1)[m] && (*result1)[m] < len(*values) && (*values)[(*result1)[m]] == result0
@@ -373,7 +381,7 @@ package electreIII
 
 // ---- building the credibility matrix (C05, C06): which pair lands in which cell
 //@ func evaluatePair
-//@   property C05 C06
+//@   property C05 C06 C01 C20
 //@   ensures [fresh] fresh(result)
 //@   returnhint [first_against_second_on_this_criterion] c1Val == model.signed(*a1, *c) && c2Val == model.signed(*a2, *c) && ths == (*criteriaThresholds)[c.Id]
 //@             && result.criterion != nil && *result.criterion == ths
@@ -384,7 +392,7 @@ package electreIII
 
 // row i, column j (row-major) holds the credibility of "alternative i outranks alternative j"; 1 on the diagonal
 //@ func evaluateCredibilityMatrix
-//@   property C05 C06
+//@   property C05 C06 C01 C20
 //@   ensures [row_major_cells] result != nil && result.Values != nil && result.Values.Size == len(*alternatives) && len(result.Values.Data) == len(*alternatives) * len(*alternatives)
 //@             && forall i int, j int :: 0 <= i && i < len(*alternatives) && 0 <= j && j < len(*alternatives) ==>
 //@                  result.Values.Data[i * len(*alternatives) + j] == (i == j ? 1.0 : credV((*alternatives)[i], (*alternatives)[j], criteria, electreCriteria))
@@ -402,7 +410,7 @@ package electreIII
 
 // positions already decided (non-zero) among the candidate indices, in candidate order
 //@ func updatedPositions
-//@   property C05 C06
+//@   property C05 C06 C01 C20
 //@   ensures [decided_candidates_only] result != nil && fresh(result) && forall m int :: 0 <= m && m < len(*result) ==>
 //@             exists k int :: 0 <= k && k < len(*indices) && (*result)[m] == (*indices)[k] && (*positions)[(*indices)[k]] != 0
 //@   ensures [at_most_the_candidates] len(*result) <= len(*indices)
@@ -412,7 +420,7 @@ package electreIII
 
 // the still undecided (zero) positions take the further positions in order; decided ones are kept
 //@ func writePositionsSequentially
-//@   property C05 C06
+//@   property C05 C06 C01 C20
 //@   requires [separate_lists] arr(*positions) != arr(*positionsToWrite)
 //@   assigns *positions
 //@   ensures [decided_kept] *positions == old(*positions) && forall i int :: 0 <= i && i < len(*positions) && old((*positions)[i]) != 0 ==> (*positions)[i] == old((*positions)[i])
@@ -423,18 +431,18 @@ package electreIII
 
 // Matches: per group (row or column) the number of entries satisfying the predicate; one counter per group
 //@ func (*Matrix).Matches
-//@   property C05 C06
+//@   property C05 C06 C01 C20
 //@   fnparam groupEvaluator pure
 //@   fnparam predicate pure
 //@   ensures [one_counter_per_group] fresh(result) && len(result) == groupsNumber && forall g int :: 0 <= g && g < groupsNumber ==> 0 <= result[g] && result[g] <= len(m.Data)
 //@   loop 1 invariant [ctx] fresh(groups) && len(groups) == groupsNumber
 //@   loop 1 invariant [bounded_counts] forall g int :: 0 <= g && g < groupsNumber ==> 0 <= groups[g] && groups[g] <= iter
 //@ func (*Matrix).MatchesInRow$1
-//@   property C05 C06
+//@   property C05 C06 C01 C20
 //@   nopanic
 //@   ensures [by_row] result == row
 //@ func (*Matrix).MatchesInColumn$1
-//@   property C05 C06
+//@   property C05 C06 C01 C20
 //@   nopanic
 //@   ensures [by_column] result == col
 
@@ -442,3 +450,24 @@ package electreIII
 //@   property C05 C06
 //@   ensures [square] fresh(result) && result.Size == len(*values) && len(result.Data) == len(*values) * len(*values)
 //@   loop 1 invariant [ctx] fresh(data) && len(data) == size * size && size == len(*values)
+
+// ---- wire format: the JSON names under which requests are read and responses are written (struct tags; encoding/json
+// itself is outside the verified code).  A renamed or omitempty field changes what a client sees without changing any Go value.
+//@ wire ElectreIIIInputParams
+//@   property C01 C05 C06 C20
+//@   json Criteria=criteria DistillationFun=distillationFun,omitempty
+//@ wire ElectreResult
+//@   property C01 C05 C06 C20
+//@   json C=c D=d
+//@ wire ElectreCriterion
+//@   property C01 C05 C06 C20
+//@   json K=k Q=q P=p V=v
+//@ wire AlternativesMatrix
+//@   property C01 C05 C06 C20
+//@   json Alternatives=alternatives Values=values
+//@ wire electreIIIParams
+//@   property C01 C05 C20
+//@   json Criteria=criteria DistillationFun=distillationFun,omitempty
+//@ wire ElectreIIIEvaluation
+//@   property C01 C05 C06 C20
+//@   json AscendingIndex=ascendingIndex DescendingIndex=descendingIndex
